@@ -504,4 +504,49 @@ def mghResave (hdr ftr : List Nat) (cw k : Nat) (imgShape : List Nat) (A : List 
     | .error er => .error er
     | .ok (sh, els) => mghWrite hdr ftr cw sh (loadedAt sh els)
 
+/-! ### shape fields of the Analyze-family headers (analyze.py:585-634, nifti1.py:952-1068, nifti2.py:147-200) -/
+
+/-- which `get/set_data_shape` a header class has -/
+inductive ShapeRule where
+  | analyze    -- AnalyzeHeader, SPM99, SPM2: int16 `dim`
+  | nifti1     -- Nifti1Header / Nifti1PairHeader: int16 `dim` + the two FreeSurfer conventions
+  | nifti2     -- Nifti2Header: int64 `dim`, no conventions
+  deriving Repr, DecidableEq, Inhabited
+
+/-- what the header stores: `dim[1 .. ndim]` and `glmin` -/
+structure ShapeFields where
+  dims : List Int
+  glmin : Nat
+  deriving Repr, DecidableEq, Inhabited
+
+/-- `AnalyzeHeader.set_data_shape`: `dim[1:ndims+1] = shape` must fit (7 slots, every value within the
+    integer type of `dim`) -/
+def storeDims (dimMax : Nat) (dims : List Int) (glmin : Nat) : Except Err ShapeFields :=
+  if dims.length ≤ 7 ∧ dims.all (fun d => decide (d ≤ (dimMax : Int))) then .ok ⟨dims, glmin⟩
+  else .error .headerData
+
+def natsToInts (l : List Nat) : List Int := l.map Int.ofNat
+
+/-- `set_data_shape(shape)` on a fresh header (`glmin = 0`) -/
+def setShape (r : ShapeRule) (dimMax glminMax : Nat) (shape : List Nat) : Except Err ShapeFields :=
+  match r with
+  | .nifti1 =>
+      if shape.take 3 = [163842, 1, 1] then                      -- ico7 convention
+        storeDims dimMax (natsToInts ([27307, 1, 6] ++ shape.drop 3)) 0
+      else if 3 ≤ shape.length ∧ (shape.drop 1).take 2 = [1, 1] ∧ dimMax < shape.headD 0 then
+        if glminMax < shape.headD 0 then .error .headerData      -- "does not fit in glmax datatype"
+        else storeDims dimMax ((-1 : Int) :: 1 :: 1 :: natsToInts (shape.drop 3)) (shape.headD 0)
+      else storeDims dimMax (natsToInts shape) 0
+  | _ => storeDims dimMax (natsToInts shape) 0
+
+/-- `get_data_shape()` (rank ≥ 1) -/
+def getShape (r : ShapeRule) (f : ShapeFields) : Except Err (List Int) :=
+  match r with
+  | .nifti1 =>
+      if f.dims.take 3 = [-1, 1, 1] then
+        if f.glmin = 0 then .error .headerData else .ok ((f.glmin : Int) :: 1 :: 1 :: f.dims.drop 3)
+      else if f.dims.take 3 = [27307, 1, 6] then .ok (163842 :: 1 :: 1 :: f.dims.drop 3)
+      else .ok f.dims
+  | _ => .ok f.dims
+
 end Nb.C01
